@@ -18,9 +18,9 @@ import (
 // that was never stopped - the digests are compared by the fsm command against the model).
 func restartCmd(out *cq.Out, seed uint64, tier string) {
 	rng := cq.NewRng(seed)
-	points := []int{0, 1, 4}
+	points := []int{0, 1, 4, 6}
 	if tier == "thorough" {
-		points = []int{0, 1, 2, 3, 5, 8, 13, 40}
+		points = []int{0, 1, 2, 3, 5, 6, 8, 13, 40}
 	}
 	for _, k := range points {
 		dir, _ := os.MkdirTemp(out.Dir, "rs")
@@ -34,7 +34,7 @@ func restartCmd(out *cq.Out, seed uint64, tier string) {
 			if phase > 0 {
 				n = 1 + rng.Intn(3)
 			}
-			o, err := runChild(out, childPlan{Dir: dir, Tag: fmt.Sprintf("rs%d-%d", k, phase), Entries: n, Seed: seed + uint64(phase), Raft: true, Port: port, Recover: phase > 0, Close: true, Snap: phase == 1 || (phase == 0 && k == 4)}, 0)
+			o, err := runChild(out, childPlan{Dir: dir, Tag: fmt.Sprintf("rs%d-%d", k, phase), Entries: n, Seed: seed + uint64(phase), Raft: true, Port: port, Recover: phase > 0, Close: true, Snap: phase == 1 || (phase == 0 && k == 4), SnapAfter: map[bool]int{true: 3}[phase == 0 && k == 6]}, 0)
 			if strings.Contains(o, "STARTERR") || strings.Contains(o, "NOLEADER") {
 				out.Count("restart_skipped_infrastructure", 1)
 				ok = false
